@@ -40,6 +40,8 @@ def tasks(ctx):
     ts.extend(ac.invariant_task(fn) for fn in ac.exported_audio_methods(ctx))
     ts.append(LemmaTask("lemma:power-on", lambda c, e, ce: wr.power_on(c, e, ce, wiring=False, only=("apuOK(m.audio)", "m.audio.ticks >= 1 && m.audio.frameSeqTicks < 512")),
                         ["gameboy.New", "audio.New"]))
+    names = {t.name for t in ts}
+    ts += [t for t in ac.register_semantics_tasks(ctx) if t.name not in names]
     return filter_tasks(ts)
 
 
